@@ -29,7 +29,8 @@ pub fn fill_random(buf: &mut [u8], seed: u64) {
 /// inputs shrink on their length and kind rather than on megabytes of bytes.
 #[derive(Clone, Debug, Serialize, Deserialize, PartialEq, Eq)]
 pub struct Content {
-    /// 0 = i%251 pattern, 1 = zeros, 2 = 0xFF, 3 = random, 4 = one random chunk repeated
+    /// 0 = i%251 pattern, 1 = zeros, 2 = 0xFF, 3 = random, 4 = one random chunk repeated,
+    /// 5 = random with aligned runs of 8-24 zero bytes inside most 64-byte blocks (zero-padded records, length prefixes)
     pub kind: u8,
     pub seed: u64,
 }
@@ -37,7 +38,7 @@ pub struct Content {
 impl Content {
     pub fn expand(&self, len: usize) -> Vec<u8> {
         let mut v = vec![0u8; len];
-        match self.kind % 5 {
+        match self.kind % 6 {
             0 => {
                 let off = (self.seed % 251) as usize;
                 for (i, b) in v.iter_mut().enumerate() {
@@ -51,6 +52,22 @@ impl Content {
                 }
             }
             3 => fill_random(&mut v, self.seed),
+            5 => {
+                fill_random(&mut v, self.seed);
+                let mut st = self.seed ^ 0x5eed;
+                let mut at = 0usize;
+                while at < len {
+                    let r = splitmix(&mut st);
+                    if r % 4 != 0 {
+                        let off = at + 8 * ((r >> 8) % 8) as usize;
+                        let run = 8 * (1 + (r >> 16) % 3) as usize;
+                        for b in v.iter_mut().skip(off).take(run) {
+                            *b = 0;
+                        }
+                    }
+                    at += 64;
+                }
+            }
             _ => {
                 let mut chunk = [0u8; 1024];
                 fill_random(&mut chunk, self.seed);
@@ -64,7 +81,7 @@ impl Content {
 }
 
 pub fn content() -> BoxedStrategy<Content> {
-    (prop_oneof![3 => Just(3u8), 1 => Just(0u8), 1 => Just(1u8), 1 => Just(2u8), 1 => Just(4u8)], any::<u64>())
+    (prop_oneof![3 => Just(3u8), 1 => Just(0u8), 1 => Just(1u8), 1 => Just(2u8), 1 => Just(4u8), 1 => Just(5u8)], any::<u64>())
         .prop_map(|(kind, seed)| Content { kind, seed })
         .boxed()
 }
